@@ -399,7 +399,225 @@ def _fix_pos_for_lines(case):
     return case
 
 
+# ======================================================================================================================
+# generated defects: grammar of valid instructions with typed holes + defect operators (vlib/gen/c03_grammar.py)
+# ======================================================================================================================
+from vlib.gen import c03_cases as GC
+from vlib.gen import c03_grammar as CG
+from vlib.ref import c03_model as MODEL
+
+_OK_CONTROL_EXITS = (0, 32, 33, 128)
+_JOINT_LABELS = bool(os.environ.get('C03_JOINT_LABELS'))
+
+
+def _materialise(ws, files):
+    ws.write_files(CG.HOME_FILES)
+    ws.write_files(files)
+    for rel in CG.EXECUTABLE:
+        os.chmod(os.path.join(ws.home, rel), 0o755)
+
+
+def _observe(files, argv):
+    with driver.Workspace() as ws:
+        _materialise(ws, files)
+        before = driver.tree_snapshot(ws.home)
+        r = driver.run_inproc(ws, argv)
+        after = driver.tree_snapshot(ws.home)
+        return {'exit': r.exit_code, 'out': r.out, 'err': r.err, 'exception': r.exception, 'timed_out': r.timed_out,
+                'markers': ws.read_markers(), 'probes': len(ws.probe_records('probe')), 'sandboxes': r.sandboxes,
+                'created': len(r.created_dirs), 'cwd_changed': r.cwd_changed, 'env_diff': r.env_diff,
+                'home_changed': sorted(k for k in set(before) | set(after) if before.get(k) != after.get(k))}
+
+
+def _first_line(text):
+    return text.split('\n', 1)[0] if text else ''
+
+
+def _short(o):
+    return {k: (v[:600] if isinstance(v, str) else v) for k, v in o.items()}
+
+
+def _pos_label(case):
+    car = case['carrier']
+    if car['ph'] not in IPHASES:
+        return 'pos:' + car['ph']
+    n = len(case['effects'][car['ph']])
+    if car['pos'] >= n:
+        return 'pos:last'
+    return 'pos:first' if car['pos'] == 0 else 'pos:middle'
+
+
+def nothing_happened(o):
+    """-> None | what happened although the case is invalid"""
+    if o['exception'] or o['timed_out']:
+        return 'exception-or-timeout'
+    if o['markers']:
+        return 'instruction-executed'
+    if o['probes']:
+        return 'program-started'
+    if o['sandboxes'] or o['created']:
+        return 'sandbox-created'
+    if o['cwd_changed'] is not None or o['env_diff'] is not None:
+        return 'process-state-changed'
+    if o['home_changed']:
+        return 'home-directory-changed'
+    return None
+
+
+def judge_defect(case, d, o, built):
+    """-> None | (what, extra detail).  o: observation of the run of the defective case in mode d['mode']"""
+    op = d['op']
+    mode = d['mode']
+    cls = op['cls']
+    cph = case['carrier']['ph']
+    idents = MODEL.IDENTS[op['expect']]
+    in_suite_file = case['carrier']['where'] == 'suite'
+    if o['exception'] or o['timed_out']:
+        return 'exception-or-timeout', {}
+    if mode == 'act' and cph in ('before-assert', 'assert') and cls != CG.CLS_SYNTAX and o['exit'] != 65:
+        # --act: "[before-assert] and [assert] are skipped" - the manual does not say whether they are validated
+        return None
+    if mode.startswith('symbol') and cls in (CG.CLS_VALUE, CG.CLS_FILE) and o['exit'] == 0:
+        # `symbol` reports "errors corresponding to the outcome of running", "but the case is not executed": the
+        # manual does not say whether values and files are looked at; nothing may happen in any case
+        what = nothing_happened(o)
+        return (what, {}) if what else None
+    what = nothing_happened(o)
+    if what:
+        return what, {}
+    if mode == 'suite':
+        if in_suite_file and cls == CG.CLS_SYNTAX:
+            # a mistake of form in the suite file itself: "Invalid suite ... Exit code 3"
+            if o['exit'] == 3 and o['out'].rstrip('\n').split('\n')[-1] == 'INVALID_SUITE':
+                return None
+        lines = o['out'].rstrip('\n').split('\n')
+        case_lines = [l for l in lines if l.startswith('case ')]
+        if o['exit'] != 4 or lines[-1] != 'ERROR' or len(case_lines) != 1:
+            return 'suite-run-not-reported-as-error', {}
+        ident = case_lines[0].rsplit(' ', 1)[-1]
+        if ident not in MODEL.NOT_EXECUTED_IDENTS:
+            return 'identifier-not-a-validation-verdict', {'identifier': ident}
+        if ident not in idents:
+            return 'identifier-of-other-class', {'identifier': ident, 'allowed': list(idents)}
+        return None
+    if o['exit'] != 65:
+        return 'exit-code-not-65', {}
+    # where the identifier is printed is not C03's business (stdout normally, stderr under --keep / --act - but
+    # stdout again when the mistake is in the suite file): it is looked for on stdout first, then on stderr
+    ident = _first_line(o['out']) or _first_line(o['err'])
+    if ident not in MODEL.NOT_EXECUTED_IDENTS:
+        return 'identifier-not-a-validation-verdict', {'identifier': ident}
+    if ident not in idents:
+        return 'identifier-of-other-class', {'identifier': ident, 'allowed': list(idents)}
+    if mode in ('keep', 'act') and o['out'] not in ('', ident + '\n'):
+        return 'output-on-stdout-without-execution', {}
+    return None
+
+
+def check_generated(case) -> Verdict:
+    car = case['carrier']
+    cph = car['ph']
+    ctl = GC.build_files(case, None)
+    oc = _observe(ctl['files'], ['t.case'])
+    instr = car['elems'][0]['name']
+    base_labels = ['ph:' + cph, 'where:' + car['where'], _pos_label(case), 'control:%s' % _first_line(oc['out'])]
+    if GC.is_at_eof(case):
+        base_labels.append('at-eof')
+        if cph == 'cleanup' and car['where'] == 'main':
+            base_labels.append('last-line-of-cleanup')
+    detail = {'control_files': ctl['files'], 'control': _short(oc)}
+    # ---- control: the valid case is executed, with effects before and in the phase of the carrier
+    must = GC.markers_before_carrier(case)
+    problem = None
+    if oc['exception'] or oc['timed_out'] or oc['exit'] not in _OK_CONTROL_EXITS:
+        problem = 'valid-case-not-executed'
+    elif [m for m in oc['markers'] if m in must] != must:
+        problem = 'effects-of-earlier-instructions-missing'
+    elif cph == 'act' and 'act' not in oc['markers']:
+        problem = 'action-to-check-left-no-marker'
+    elif cph == 'conf' and (oc['exit'] not in (0, 33) or oc['markers'] != GC.all_markers(case)):
+        problem = 'conf-control-does-not-pass'
+    elif oc['cwd_changed'] is not None or oc['env_diff'] is not None or oc['home_changed'] or oc['sandboxes']:
+        problem = 'valid-case-leaves-traces'
+    if problem:
+        detail['must_markers'] = must
+        return fail('generated/control/' + problem, detail, labels=base_labels)
+    nontrivial = bool(oc['markers']) and oc['created'] > 0
+    labels = list(base_labels)
+    keys = []
+    # ---- `exactly symbol` on the valid case: reports, executes nothing
+    if case.get('symbol_check'):
+        for argv in (['symbol', 't.case'], ['symbol', 't.case', 'S'], ['symbol', 't.case', 'S', '--ref']):
+            osym = _observe(ctl['files'], argv)
+            what = nothing_happened(osym)
+            listing = None
+            if not what and osym['exit'] != 0:
+                what = 'valid-case-not-reported'
+            if not what and len(argv) == 2:
+                listing = MODEL.parse_symbol_list(osym['out'])
+                want = MODEL.expected_symbol_list(CG.PRELUDE_SYMBOLS, car['elems'])
+                if listing is None:
+                    what = 'listing-of-other-form'
+                elif sorted((t, n) for t, _, n in listing) != sorted((t, n) for t, _, n in want):
+                    what = 'listing-is-not-the-defined-symbols'
+                elif sorted(listing) != sorted(want):
+                    what = 'listing-with-other-reference-counts'
+                detail['expected_listing'] = want
+            if not what and len(argv) == 3 and not osym['out'].startswith('string'):
+                what = 'definition-not-reported'
+            labels.append('symbol-cmd-on-valid')
+            if what:
+                detail['symbol_run'] = dict(_short(osym), argv=argv)
+                return fail('symbol-command/valid-case/' + what, detail, labels=labels, nontrivial=nontrivial)
+    # ---- the defects
+    for d in case['defects']:
+        op = d['op']
+        built = GC.build_files(case, d)
+        extra, argv = GC.argv_for(d['mode'], built)
+        files = dict(built['files'])
+        files.update(extra)
+        if built['files'] == ctl['files']:
+            labels.append('identity-edit')
+            continue
+        o = _observe(files, argv)
+        hole_kind = car['elems'][d['ei']]['toks'][op['tok']][1].split(':')[0] if 'tok' in op else (
+            'path' if op['edit'] == 'span' else 'instruction')
+        dl = ['op:' + op['op'], 'mode:' + d['mode'], 'cls:' + op['cls'], 'hole:' + hole_kind]
+        if _JOINT_LABELS:  # development only: the evidence keeps the 150 most frequent labels
+            dl += ['J|%s|%s|%s|%s|%s|%s|%s' % (op['op'], hole_kind, cph, _pos_label(case)[4:], car['where'], d['mode'],
+                                              car['elems'][d['ei']]['name'])]
+        if op['op'] == 'wrong-type':
+            dl += ['wrong-type:' + op['wtype'], 'chain-depth:%d' % op['depth']]
+        if 'later' in op:
+            dl.append('later:%s%s' % (op['later']['place'],
+                                      '/textually-earlier' if built['later_textually_earlier'] else ''))
+        if op['op'] in ('relativity-via-symbol', 'relativity-option'):
+            dl.append('rel:%s/%s' % (op['op'], op['rel']))
+        if op['op'] == 'relativity-via-symbol':
+            dl += ['rel-form:' + op['form'], 'rel-chain-depth:%d' % op['depth']]
+        if op['op'] == 'missing-home-file':
+            dl += ['missing:' + op['form'], 'missing-at:' + op['what']]
+        verdict = judge_defect(case, d, o, built)
+        ident = _first_line(o['out']) or _first_line(o['err'])
+        dl.append('outcome:%s' % (ident if o['exit'] == 65 else 'exit-%s' % o['exit']))
+        labels += dl
+        keys.append('%s|%s' % (d['mode'], '\x00'.join(files[k] for k in sorted(files))))
+        if verdict is not None:
+            what, more = verdict
+            detail.update({'defect': d, 'files': files, 'argv': argv, 'observed': _short(o),
+                           'carrier_valid': ctl['carrier_lines'], 'carrier_defective': built['carrier_lines'],
+                           'allowed_identifiers': list(MODEL.IDENTS[op['expect']])})
+            detail.update(more)
+            return fail('generated/%s/%s/%s' % (what, op['op'], d['mode']), detail, labels=labels,
+                        nontrivial=nontrivial, key='\x01'.join(keys))
+    return Verdict(True, nontrivial=nontrivial and bool(keys), key='\x01'.join(keys) if keys else None, labels=labels,
+                   sample={'case': ctl['files']['t.case'],
+                           'defects': [[d['op']['op'], d['mode']] for d in case['defects']]})
+
+
 SUBS = [
     Sub('defect_has_no_effect', check, strategy=lambda tier: cases(),
-        budget={'quick': 1600, 'thorough': 60000}),
+        budget={'quick': 800, 'thorough': 30000}),
+    Sub('generated_defect', check_generated, strategy=lambda tier: GC.generated_cases(tier),
+        budget={'quick': 1500, 'thorough': 40000}),
 ]
